@@ -95,9 +95,32 @@ def seeds():
     return ('| seed | change | needs in order to manifest | result of the property\'s check |\n|---|---|---|---|\n' + '\n'.join(rows))
 
 
+def _lean_imports(root):
+    import re
+    seen, todo = set(), [root]
+    while todo:
+        mod = todo.pop()
+        if mod in seen:
+            continue
+        f = os.path.join(VERIF, 'lean', mod.replace('.', '/') + '.lean')
+        if not os.path.exists(f):
+            continue
+        seen.add(mod)
+        text = re.sub(r'/-.*?-/', '', open(f).read(), flags=re.S)
+        for m in re.finditer(r'^\s*import\s+(\S+)', text, re.M):
+            todo.append(m.group(1))
+    return seen
+
+
 def translators():
     import ast
     import glob
+    users = {}
+    for n in range(1, 21):
+        pid = 'C%02d' % n
+        for mod in _lean_imports('Props.' + pid) | _lean_imports('Driver.' + pid):
+            if mod.startswith('Gen.'):
+                users.setdefault(mod[4:] + '.lean', set()).add(pid)
     rows = []
     for f in sorted(glob.glob(os.path.join(VERIF, 'translator', 'gen_*.py'))):
         t = ast.parse(open(f).read())
@@ -107,8 +130,11 @@ def translators():
         for n in t.body:
             if isinstance(n, ast.Assign) and any(getattr(x, 'id', None) == 'OUTPUTS' for x in n.targets):
                 outs = [e.value for e in n.value.elts]
-        rows.append('| `%s` | %s | %s |' % (os.path.basename(f), ', '.join('`Gen/%s`' % o for o in outs), first.replace('|', '\\|')[:420]))
-    return '| translator | output | reads (from its docstring) |\n|---|---|---|\n' + '\n'.join(rows)
+        used = sorted(set(p for o in outs for p in users.get(o, ())))
+        rows.append('| `%s` | %s | %s | %s |' % (os.path.basename(f), ', '.join('`Gen/%s`' % o for o in outs), ' '.join(used) or '—',
+                                                first.replace('|', '\\|')[:600]))
+    return ('| translator | output | imported by the Lean files of (from the import graph) | reads (first paragraph of its docstring) |\n'
+            '|---|---|---|---|\n' + '\n'.join(rows))
 
 
 def part(name):
